@@ -76,4 +76,9 @@ def encapsulate (al : String) (isEngine : Bool) (ident qual text : String) : Str
     (if isEngine then "class " ++ ident ++ ":\n    def __init__(self) -> None:\n        self.engine = " ++ text ++ "\n"
      else "def create() -> " ++ qual ++ ":\n    return " ++ text ++ "\n")
 
+/-- `PythonExporter.to_string`: the wrapped or the plain representation, through `black` when `formatted` -/
+def exportText (encapsulated formatted : Bool) (fmt : String → Py.M String) (wrapped text : String) : Py.M String :=
+  let code := if encapsulated then wrapped else text
+  if formatted then fmt code else .ok code
+
 end Op.PyRepr
